@@ -28,7 +28,7 @@ ASSUMPTIONS = ["user functions deterministic", "values compared as strings"]
 
 def registry():
     from contracts import misc
-    return {c.short: c for c in misc.ALL}
+    return {**{c.short: c for c in misc.ALL}, **{c.name: c for c in misc.ALL}}
 
 
 def _alt_gen(rng, tier):
